@@ -765,7 +765,9 @@ pub async fn spawn_server(spec: ServerSpec, log: Arc<Log>, gates: Gates) -> Serv
     }
 
     let join = match (spec.proto, spec.tls.is_some(), spec.sni_validation) {
-        (Proto::Auto, false, _) => run!(hyperdriver::Server::builder().with_acceptor(acceptor).with_protocol(hyperdriver::server::AutoBuilder::new(e.clone())).with_make_service(make).with_executor(e.clone())),
+        // the plain auto-detecting server is built the way users build it: `with_auto_http()` (its own configuration of
+        // the protocol builders is part of what is under test)
+        (Proto::Auto, false, _) => run!(hyperdriver::Server::builder().with_acceptor(acceptor).with_auto_http().with_make_service(make).with_executor(e.clone())),
         (Proto::H1, false, _) => run!(hyperdriver::Server::builder().with_acceptor(acceptor).with_http1().with_make_service(make).with_executor(e.clone())),
         (Proto::H2, false, _) => run!(hyperdriver::Server::builder().with_acceptor(acceptor).with_protocol(hyperdriver::server::conn::http2::Builder::new(e.clone())).with_make_service(make).with_executor(e.clone())),
         (Proto::Auto, true, false) => run!(hyperdriver::Server::builder().with_acceptor(acceptor).with_protocol(hyperdriver::server::AutoBuilder::new(e.clone())).with_make_service(make).with_tls_connection_info().with_executor(e.clone())),
@@ -825,10 +827,18 @@ pub struct ReqSpec {
     pub unsized_body: bool,
     /// the request is versioned HTTP/1.0 by the caller (the connection still speaks HTTP/1.1)
     pub http10: bool,
+    /// 0: "/r/<id>/<extra>?<query>"; 1: root path with a query "/?id=<id>&root=1"; 2: empty path with a query "?id=<id>&root=2"
+    pub root_path: u8,
 }
 
 impl ReqSpec {
+    /// what the server must see as the request target
     pub fn path_query(&self) -> String {
+        match self.root_path {
+            1 => return format!("/?id={}&root=1", self.id),
+            2 => return format!("/?id={}&root=2", self.id),
+            _ => {}
+        }
         let mut s = format!("/r/{}/{}", self.id, self.extra_path);
         if let Some(q) = &self.query {
             s.push('?');
@@ -837,7 +847,8 @@ impl ReqSpec {
         s
     }
     pub fn build(&self) -> Request<ChunkBody> {
-        let uri = format!("{}{}", self.origin, self.path_query());
+        // an empty path in front of a query is written without the slash by the caller
+        let uri = if self.root_path == 2 { format!("{}?id={}&root=2", self.origin, self.id) } else { format!("{}{}", self.origin, self.path_query()) };
         let mut b = Request::builder().method(self.method.clone()).uri(uri).version(if self.h2 { http::Version::HTTP_2 } else if self.http10 { http::Version::HTTP_10 } else { http::Version::HTTP_11 });
         b = b.header("x-id", self.id).header("x-len", self.body_len as u64);
         if self.resp_chunk > 0 {
@@ -898,13 +909,16 @@ pub fn check_response(spec: &ReqSpec, expect_server: Option<usize>, status: http
 pub fn check_handled(spec: &ReqSpec, h: &Handled) -> Vec<(String, String)> {
     let mut p = Vec::new();
     let id = spec.id;
-    if h.path_id != Some(id) || h.header_id != Some(id) {
+    if (spec.root_path == 0 && h.path_id != Some(id)) || h.header_id != Some(id) {
         p.push(("request-ids-disagree".to_string(), format!("handler saw path id {:?} header id {:?} for request {id}", h.path_id, h.header_id)));
     }
     if h.method != spec.method.as_str() {
         p.push(("request-method-altered".into(), format!("request {id}: {} -> {}", spec.method, h.method)));
     }
-    if h.path_query != spec.path_query() {
+    // an empty path in front of a query: HTTP/1 sends "/?q" (origin-form); over HTTP/2 the h2 crate puts the URI's
+    // path-and-query into :path as the http crate stores it ("?q") - upstream representation, both are the same target
+    let seen_pq = if spec.root_path == 2 && h.path_query.starts_with('?') { format!("/{}", h.path_query) } else { h.path_query.clone() };
+    if seen_pq != spec.path_query() {
         p.push(("request-path-query-altered".into(), format!("request {id}: {:?} -> {:?}", spec.path_query(), h.path_query)));
     }
     if h.finished && (h.body_len != spec.body_len || !h.body_matches_pattern) {
